@@ -488,6 +488,15 @@ BOUNDARY_SHAPES = {
                                        "eq": [["a", 0], ["a", 3], ["i", 1], ["i", 2], ["f", 1]], "const_col": True,
                                        "copies": [["inst", 0, 2, 0], ["const", 3, 9]]},
                                 np=2, nbc=2, lens=[1, 2, 3, 0]),
+    # degree 5 (chunk_len 3) with 8 permutation columns (6 advice, a plain instance, the constant column): 3 sets of
+    # sizes 3,3,2; committed instance column queried at rotations 1 and -1; two proofs
+    "deg5-perm3chunks-2proofs": dict(shape={"adv": [0, 0, 0, 0, 0, 0], "nfix": 1, "ninst": 2, "chal": [],
+                                            "gates": [{"sel": "mul", "cons": [{"prods": [[_a(0), _a(1, 1), _a(2, -1), _a(3)], [["i", 0, 1], ["i", 0, -1]]],
+                                                                               "out": _a(4)}]},
+                                                      {"sel": "cmul", "cons": [{"prods": [[_a(4, 1), _a(5)], [["f", 0, 1]]], "out": _a(5, 1)}]}],
+                                            "eq": [["a", 0], ["a", 1], ["a", 2], ["a", 3], ["a", 4], ["a", 5], ["i", 1]], "const_col": True,
+                                            "copies": [["eq", 0, 5], ["inst", 3, 1, 0], ["const", 2, 11]]},
+                                     np=2, nbc=1, lens=[2, 1]),
     # no permutation argument at all, gate without selector, unblinded advice column
     "noperm-nosel": dict(shape={"adv": [0, 0], "unbl": [1], "nfix": 1, "ninst": 1, "chal": [],
                                 "gates": [{"sel": "none", "cons": [{"prods": [[["f", 0, 0], _a(0), _a(0)]], "out": _a(1)}]}],
@@ -503,6 +512,9 @@ def random_shape(rnd, lookups=True, honest=False, max_np=2):
     nph = rnd.randint(1, 3)
     adv = sorted(rnd.randint(0, nph - 1) for _ in range(nadv))
     adv[0] = 0
+    # phases must be contiguous (the constraint system refuses a phase-2 column without a phase-1 column)
+    dense = {ph: i for i, ph in enumerate(sorted(set(adv)))}
+    adv = [dense[ph] for ph in adv]
     nph = max(adv) + 1
     chal = sorted(rnd.randint(0, max(0, nph - 2)) for _ in range(rnd.randint(0, 2))) if nph > 1 else []
     nfix = rnd.randint(1, 2)
@@ -662,4 +674,95 @@ class VerifierRun:
         acc = {}
         for _, _, nf in self.ids:
             acc = self.ring.add(self.ring.mul(acc, y), nf)
+        return acc
+
+
+# ------------------------------------------------------------------ honest proof vs committed polynomials (C01 e2e)
+ROOT_OF_UNITY = 0x16a2a19edfe81f20d09b681922c813b4b63683508c2280b93829971f439f0d2b   # cross-checked against sx consts in C12
+S_2ADICITY = 32
+
+
+class ProverRun:
+    """A `sx prover ... nodes=1 coms=1 guard=1` run: the verifier's queries (on the prover's own proof) and the
+    vectors the prover committed. spec_eval(q) = value at the query point of the polynomial behind q's
+    commitment(s), written from the definition (Lagrange basis l_j(p) = (w^j/n)(p^n-1)/(p-w^j); monomial basis;
+    chopped = sum_i piece_i(p) p^((n-1) i))."""
+
+    def __init__(self, d):
+        self.d = d
+        self.dag = Dag(d["arena"])
+        self.k = d["k"]
+        self.n = 1 << self.k
+        hq = [q for q in d["guard"] if q["label"] == "custom:vanishing"]
+        self.hq = hq[0]
+        self.concrete = d["arena"].get("concrete", False)
+        self.w = pow(ROOT_OF_UNITY, 1 << (S_2ADICITY - self.k), P)
+        if not self.concrete:
+            self.xname = self.dag.var_name(self.hq["point"])
+            self.ring = Ring(self.xname, self.n)
+            self.memo = {}
+
+    def nf(self, t):
+        return self.dag.normal(self.ring, t, self.memo)
+
+    def spec_eval(self, q):
+        ring, n, w = self.ring, self.n, self.w
+        p = self.nf(q["point"])
+        coms = [self.d["world"]["coms"][h] for h in q["coms"]]
+        ninv = pow(n, P - 2, P)
+        xn1 = ring.add(ring.const(P - 1), {((ring.X, n),): 1})
+
+        def monomial(vec, pt):
+            acc = {}
+            for co in reversed(vec):
+                acc = ring.add(ring.mul(acc, pt), co)
+            return acc
+
+        if q["n"] is None:
+            c = coms[0]
+            if c[0] != "commit":
+                raise ValueError(f"query on a commitment the prover did not make: {c}")
+            vec = [self.nf(t) for t in c[2]]
+            if c[1] == "coeff":
+                return monomial(vec, p)
+            acc = {}
+            for j, v in enumerate(vec):
+                wj = pow(w, j, P)
+                lj = ring.mul(ring.scale(xn1, wj * ninv % P), ring.inv(ring.add(p, ring.const(P - wj))))
+                acc = ring.add(acc, ring.mul(v, lj))
+            return acc
+        sf = {(): 1}
+        for _ in range(q["n"] - 1):
+            sf = ring.mul(sf, p)
+        acc = {}
+        for c in reversed(coms):
+            acc = ring.add(ring.mul(acc, sf), monomial([self.nf(t) for t in c[2]], p))
+        return acc
+
+    def spec_eval_concrete(self, q):
+        """the same definition on numbers (concrete-mode run)"""
+        dag, n, w = self.dag, self.n, self.w
+        p = dag.const(q["point"])
+        coms = [self.d["world"]["coms"][h] for h in q["coms"]]
+
+        def monomial(vec, pt):
+            acc = 0
+            for t in reversed(vec):
+                acc = (acc * pt + dag.const(t)) % P
+            return acc
+
+        if q["n"] is None:
+            c = coms[0]
+            if c[1] == "coeff":
+                return monomial(c[2], p)
+            acc = 0
+            pn1 = (pow(p, n, P) - 1) % P
+            for j, t in enumerate(c[2]):
+                wj = pow(w, j, P)
+                acc = (acc + dag.const(t) * wj % P * pow(n, P - 2, P) % P * pn1 % P * pow((p - wj) % P, P - 2, P)) % P
+            return acc
+        sf = pow(p, q["n"] - 1, P)
+        acc = 0
+        for c in reversed(coms):
+            acc = (acc * sf + monomial(c[2], p)) % P
         return acc
